@@ -136,7 +136,7 @@ var c14Kind = registerKind("c14", func(in c14In) string {
 		others := map[string]psatoken.IClaims{}
 		if p == P1 {
 			others["zero-value P1Claims"] = &psatoken.P1Claims{}
-			others["inherit-p1 instance"] = inheritP1Profile{}.GetClaims()
+			others["inherit-p1 instance"] = inheritProfile{P1}.GetClaims()
 			others["ext-p1 instance"] = newExtP1Claims()
 			fp, _ := psatoken.NewClaims(P1Name)
 			type cu interface{ UnmarshalCBOR([]byte) error }
@@ -144,7 +144,7 @@ var c14Kind = registerKind("c14", func(in c14In) string {
 			others["P1 object that decoded a foreign psa-profile"] = fp
 		} else {
 			others["zero-value P2Claims"] = &psatoken.P2Claims{}
-			others["inherit-p2-oid instance"] = inheritP2Profile{}.GetClaims()
+			others["inherit-p2-oid instance"] = inheritProfile{P2}.GetClaims()
 			others["ext-p2 instance"] = newExtP2Claims()
 			np, _ := psatoken.NewClaims(P2Name)
 			_ = json.Unmarshal([]byte(`{"psa-client-id":1}`), np)
